@@ -383,21 +383,40 @@ func (c *Ctx) ord4() {
 			// duplicate: must be answered, never delivered
 			if len(wires) == 0 {
 				// only acceptable when an internal-error return precedes the write
+				// (readSlices enters every handler with pendingAck empty — clauses "flush" and
+				// "inv" below — so a path that found it filled before this call stored to it is dead code)
 				if r := p.Events[last].Results[len(p.Events[last].Results)-1]; isOpaqueErrorf(r) {
-					continue
+					firstStore := last
+					if len(stores) > 0 {
+						firstStore = stores[0].idx
+					}
+					filled := false
+					for _, cm := range assumed(p, 0, firstStore) {
+						if x, ok := builtinCall(cm.X, "len"); ok && roleKey(x) == "Client.pendingAck" && cm.Op == token.NEQ && isK(cm.Y, 0) {
+							filled = true
+						}
+					}
+					if filled {
+						continue
+					}
 				}
 				dupe.fail(p, last, "a retransmitted exactly-once PUBLISH is skipped without repeating PUBREC: the broker can never complete the exchange")
 				continue
 			}
 			w := wires[0]
-			okAck := false
+			okAck, okID := false, false
 			for _, st := range stores {
 				if st.idx < w && st.kind == "append" && st.first == pt["typePUBREC"]<<4 {
 					okAck = true
+					okID = ackCarriesParsedID(st)
 				}
 			}
 			if !okAck {
 				dupe.fail(p, w, "the packet written for a duplicate is not a PUBREC")
+				continue
+			}
+			if !okID {
+				dupe.fail(p, w, "the PUBREC written for a duplicate does not carry the identifier parsed from this packet (length byte 2, high byte, low byte)")
 				continue
 			}
 			if n, k := nilResult(p, w, last); k && n {
@@ -469,6 +488,9 @@ func (c *Ctx) ord4() {
 	trunc := c.acc("ORD-4", rs, "truncate-only-after-nil-write")
 	onlyRec := c.acc("ORD-4", rs, "marker-Save-only-when-the-pending-packet-is-PUBREC")
 	loopPub := c.acc("ORD-4", rs, "loop-continues-after-onPUBLISH-only-on-errDupe")
+	unsaved := c.acc("ORD-4", rs, "flush-without-marker-Save⇒proven-not-PUBREC")
+	dupeServed := c.acc("ORD-4", rs, "duplicate⇒never-served")
+	dupeEsc := c.acc("ORD-4", rs, "errDupe-does-not-escape")
 	for _, p := range c.Paths("ORD-4", rs) {
 		// first peekPacket call on the path
 		ip := p.Index(0, func(e *pathx.Event) bool { return isCallTo(e, peek) })
@@ -531,8 +553,8 @@ func (c *Ctx) ord4() {
 			okRec := false
 			for _, cm := range assumed(p, 0, i) {
 				if cm.Op == token.EQL && isK(cm.Y, pt["typePUBREC"]) {
-					if sh, ok := strip(cm.X).(*ssa.BinOp); ok && sh.Op == token.SHR {
-						if ix := indexBase(sh.X); ix != nil && roleKey(ix) == "Client.pendingAck" {
+					if sh, ok := strip(cm.X).(*ssa.BinOp); ok && sh.Op == token.SHR && isK(sh.Y, 4) {
+						if ix := indexBase(sh.X); ix != nil && roleKey(ix) == "Client.pendingAck" && isK(elemIndex(sh.X), 0) {
 							okRec = true
 						}
 					}
@@ -562,6 +584,44 @@ func (c *Ctx) ord4() {
 				}
 			}
 		}
+		// a flush without a marker Save needs the proof that the packet is not a
+		// PUBREC: the very test pendingAck[0]>>4 != typePUBREC (type nibble, exact constant)
+		if p.Start == rs.Blocks[0] {
+			ipk := p.Index(0, func(e *pathx.Event) bool { return isCallTo(e, peek) })
+			if ipk < 0 {
+				ipk = len(p.Events)
+			}
+			for i := 0; i < ipk; i++ {
+				e := &p.Events[i]
+				if e.Kind != pathx.KCall || e.Callee == nil || !wire[e.Callee] || len(e.Args) < 2 || roleKey(e.Args[1]) != "Client.pendingAck" {
+					continue
+				}
+				saved := false
+				for j := 0; j < i; j++ {
+					if persistenceOp(&p.Events[j]) == "Save" {
+						saved = true
+					}
+				}
+				if saved {
+					continue // judged by the Save clauses
+				}
+				notRec := false
+				for _, cm := range assumed(p, 0, i) {
+					if cm.Op == token.NEQ && isK(cm.Y, pt["typePUBREC"]) {
+						if sh, ok := strip(cm.X).(*ssa.BinOp); ok && sh.Op == token.SHR && isK(sh.Y, 4) {
+							if ix := indexBase(sh.X); ix != nil && roleKey(ix) == "Client.pendingAck" && isK(elemIndex(sh.X), 0) {
+								notRec = true
+							}
+						}
+					}
+				}
+				if notRec {
+					unsaved.pass()
+				} else {
+					unsaved.fail(p, i, "the pending acknowledgement is written without a marker Save on a path that has not established pendingAck[0]>>4 != typePUBREC: a PUBREC can go out with no record of the reception, and the redelivery after a restart is taken for a new message")
+				}
+			}
+		}
 		if isRec {
 			iw := p.Index(recAt, func(e *pathx.Event) bool { return e.Kind == pathx.KCall && e.Callee != nil && wire[e.Callee] })
 			if iw >= 0 {
@@ -577,6 +637,52 @@ func (c *Ctx) ord4() {
 					save.fail(p, iw, "PUBREC is written although the marker Save may have failed")
 				} else {
 					save.pass()
+				}
+			}
+		}
+		// errDupe is internal: a duplicate is skipped (the loop goes on, or a
+		// failure of the skipping itself is returned) — never served, and the
+		// sentinel never reaches the application
+		for i := range p.Events {
+			e := &p.Events[i]
+			if !isCallTo(e, onPub) || e.Depth != 0 {
+				continue
+			}
+			er := pathx.ErrResult(e.Result)
+			isDupe, notDupe := false, false
+			for _, cm := range assumed(p, i, -1) {
+				for _, k := range []cmp{cm, cm.swapped()} {
+					if strip(k.X) == er && isSentinel(k.Y, "errDupe") {
+						isDupe = isDupe || k.Op == token.EQL
+						notDupe = notDupe || k.Op == token.NEQ
+					}
+				}
+			}
+			if p.End != pathx.KReturn {
+				continue
+			}
+			last := len(p.Events) - 1
+			res := p.Events[last].Results
+			if len(res) != 3 {
+				continue
+			}
+			rerr := strip(res[2])
+			if isDupe {
+				served := !pathx.IsNilConst(res[0]) || roleKey(unwrapIface(res[2])) == "Client.bigMessage"
+				if mi, ok := res[2].(*ssa.MakeInterface); ok && roleKey(mi.X) == "Client.bigMessage" {
+					served = true
+				}
+				if served || retErr(p, last) == triNil {
+					dupeServed.fail(p, last, "ReadSlices returns a message (or nothing at all) on a path where onPUBLISH reported a duplicate: the duplicate is delivered a second time")
+				} else {
+					dupeServed.pass()
+				}
+			}
+			if rerr == er {
+				if notDupe {
+					dupeEsc.pass()
+				} else {
+					dupeEsc.fail(p, last, "ReadSlices returns the error of onPUBLISH on a path that has not excluded errDupe: a suppressed duplicate surfaces as an error and (with the reset that goes with it) drops the connection")
 				}
 			}
 		}
@@ -605,6 +711,9 @@ func (c *Ctx) ord4() {
 			}
 		}
 	}
+	dupeServed.done(1, "a path with err == errDupe ends in the next iteration or in an error return")
+	dupeEsc.done(2, "every return of onPUBLISH's error has excluded errDupe")
+	unsaved.done(1, "the only flush without a Save lies behind pendingAck[0]>>4 != typePUBREC")
 	flush.done(1, "every entry path reaches peekPacket with pendingAck empty or flushed (write=nil, then truncated)")
 	save.done(1, "marker Save returned nil before every PUBREC flush")
 	trunc.done(1, "pendingAck is truncated only behind a nil write")
@@ -997,4 +1106,44 @@ func (c *Ctx) ord8() {
 		}
 	}
 	dl.done(1, "exactly one write (packetDISCONNECT), then Close, and the write token is consumed")
+}
+
+// elemIndex gives the index operand of an element load (*&x[i]), or nil.
+func elemIndex(v ssa.Value) ssa.Value {
+	u, ok := strip(v).(*ssa.UnOp)
+	if !ok || u.Op != token.MUL {
+		return nil
+	}
+	ia, ok := u.X.(*ssa.IndexAddr)
+	if !ok {
+		return nil
+	}
+	return ia.Index
+}
+
+// ackCarriesParsedID: a four byte acknowledgement {type, 2, id>>8, id} whose
+// identifier bytes derive from the Uint16 parsed in the same call.
+func ackCarriesParsedID(st ackStore) bool {
+	if len(st.elems) != 4 {
+		return false
+	}
+	src, idOK := idBytes(st.elems[2], st.elems[3])
+	if !idOK {
+		return false
+	}
+	if cv, ok := src.(*ssa.Convert); ok {
+		src = cv.X
+	}
+	call, ok := strip(src).(*ssa.Call)
+	if !ok {
+		return false
+	}
+	if f := call.Call.StaticCallee(); f == nil || f.Name() != "Uint16" {
+		return false
+	}
+	if st.elems[1].part != 0 {
+		return false
+	}
+	n, ok := intConst(st.elems[1].v)
+	return ok && n == 2
 }
